@@ -63,7 +63,26 @@ RtPremise(e) ==
         /\ \A r \in 1..Len(seg.fields[n]) : Len(seg.fields[n]) = 1 \/ ~EmptyRep(seg.fields[n][r])   \* no empty repetition
 RtVerdict(e) == IF e.outcome # "ok" THEN "raised" ELSE IF e.out # e.text THEN "text_changed" ELSE "ok"
 
+(* ---------------- C07: the message's delimiter set governs its whole encoding ---------------- *)
+\* e = [k |-> "delims", ec, doc : Seq([name, fields]), out, mllp, ecs : Seq(ec lists read back on the message and
+\*      every descendant), pec (set recovered by parsing out), reenc, outcome]
+DocOf(e) == [i \in 1..Len(e.doc) |-> [name |-> e.doc[i].name, fields |-> e.doc[i].fields]]
+DelimsVerdict(e) ==
+  LET ec == Ec(e) IN
+  IF e.outcome # "ok" THEN "raised"
+  ELSE IF e.out # EncMsg(DocOf(e), ec) THEN "encoding_is_not_the_tree_joined_with_the_given_delimiters"
+  ELSE IF EcOfText(e.out) # ec THEN "msh_1_2_do_not_spell_the_set"
+  ELSE IF (Len(SplitOn(SegLines(e.out)[1], ec.F)[2]) = 5) # (ec.T # 0) THEN "truncation_character_emitted_iff_supplied"
+  ELSE IF \E i \in 1..Len(e.ecs) : e.ecs[i] # e.ec THEN "encoding_chars_read_back_differently_on_some_element"
+  ELSE IF e.pec # e.ec THEN "parsing_the_output_recovers_another_set"
+  ELSE IF e.reenc # e.out THEN "reparsed_tree_encodes_differently"
+  ELSE IF e.mllp # (<<11>> \o e.out) \o <<13, 28, 13>> THEN "to_mllp_not_framed_with_the_same_text"
+  ELSE "ok"
+BadDelimsVerdict(e) == IF e.outcome # "InvalidEncodingChars" THEN "defective_set_not_rejected_with_InvalidEncodingChars" ELSE "ok"
+
 Verdict(e) == CASE e.k = "pos" -> PosVerdict(e)
+                [] e.k = "delims" -> DelimsVerdict(e)
+                [] e.k = "baddelims" -> BadDelimsVerdict(e)
                 [] e.k = "rt" -> RtVerdict(e)
                 [] e.k = "full" -> FullVerdict(e)
                 [] OTHER -> "unknown_event_kind"
